@@ -9,7 +9,9 @@ from wv.par import pmap
 CLAUSES = {
     "C06": ["P06_refused_request_never_reaches_application", "P11_no_response_after_a_closing_response", "P11_nothing_executed_after_a_closing_response",
             "P11_closing_response_is_followed_by_close", "P04_at_most_one_response_per_request"],
+    "C09": ["P09_every_started_iterable_is_closed", "P09_iterable_closed_exactly_once", "P12_paused_producer_released", "P13_workers_alive", "P13_no_thread_dies"],
     "C03": ["P04_wire_is_a_sequence_of_well_formed_responses", "P04_at_most_one_response_per_request", "P04_only_the_last_response_may_be_cut",
+            "P04_response_body_intact", "P05_every_complete_request_answered", "P05_no_livelock",
             "P11_no_response_after_a_closing_response", "P11_closing_response_is_followed_by_close", "P11_nothing_executed_after_a_closing_response"],
     "C04": ["P04_wire_is_a_sequence_of_well_formed_responses", "P04_at_most_one_response_per_request",
             "P04_responses_in_request_order", "P04_response_body_intact", "P04_every_finished_request_has_its_response",
